@@ -2,8 +2,8 @@ from . import has_class
 
 CFG = {
     "harness": ["v1"],
-    "functional": [],
-    "required_classes": ["compile", "copies", "selection", "dc-pointer", "dc-slice", "dc-map", "dc-array", "dc-array-of-references", "dc-cross-package", "dc-named-interface", "dc-hand-written", "dc-package-tag", "dc-no-package-tag", "dc-type-opt-in", "dc-type-opt-out", "dc-self-pointer"],
+    "functional": ["C16.copy"],
+    "required_classes": ["model-copy", "model-shares", "compile", "copies", "selection", "dc-pointer", "dc-slice", "dc-map", "dc-array", "dc-array-of-references", "dc-cross-package", "dc-named-interface", "dc-hand-written", "dc-package-tag", "dc-no-package-tag", "dc-type-opt-in", "dc-type-opt-out", "dc-self-pointer"],
     "signatures": {"array-of-references-field": has_class("sig:array-of-references-field")},
     "timeout": {"quick": 1500, "thorough": 6000},
     "rule": 'generated packages (1-3, cross-package references) of exported struct / defined slice / defined map types over builtins, pointers, slices, maps with assignable keys, arrays (as struct fields; every other program also arrays of pointers/slices/maps), nested and recursive structs, named interfaces with DeepCopyObj methods, types with hand-written DeepCopy/DeepCopyInto that count their calls, package-level and type-level opt-in/opt-out tags; the REAL deepcopy-gen is run in process from the current tree, its output compiled with the input and a generated driver (go run), which for 60 (thorough: 300) random values per generated type checks reflect.DeepEqual (incl. nil vs empty), disjointness of all pointer/slice/map storage, mutate-copy-and-compare, hand-written methods called, and that exactly the expected types got DeepCopy functions; non-trivial = input longer than 12 characters',
